@@ -57,3 +57,78 @@ pub proof fn lemma_wf_bytes_facts(p: Seq<u8>)
     lemma_sec_end_bounds(p, sec_start(p, Section::NameServers), be16(p, 8) as int);
     lemma_sec_end_bounds(p, sec_start(p, Section::Additional), be16(p, 10) as int);
 }
+
+// ---- which section an offset belongs to, judged from the section offsets of the object (derive(PartialOrd) on Option: None < Some)
+pub open spec fn opt_lt(a: Option<usize>, b: Option<usize>) -> bool {
+    match (a, b) { (None, None) => false, (None, Some(_)) => true, (Some(_), None) => false, (Some(x), Some(y)) => x < y }
+}
+pub open spec fn section_at(pp: ParsedPacket, off: Option<usize>) -> Section {
+    if pp.offset_additional.is_some() && !opt_lt(off, pp.offset_additional) { Section::Additional }
+    else if pp.offset_nameservers.is_some() && !opt_lt(off, pp.offset_nameservers) { Section::NameServers }
+    else if pp.offset_answers.is_some() && !opt_lt(off, pp.offset_answers) { Section::Answer }
+    else { Section::Question }
+}
+pub proof fn lemma_rec_start_bounds(p: Seq<u8>, s: int, n: int, k: int)
+    requires recs_all(p, s, n), 0 <= k < n, 0 <= s <= p.len()
+    ensures s <= rec_start(p, s, k) < sec_end(p, s, n), rec_ok(p, rec_start(p, s, k)),
+        sec_end(p, s, n) <= p.len(),
+    decreases k
+{
+    lemma_rec_bounds(p, s);
+    lemma_sec_end_bounds(p, rec_end(p, s), n - 1);
+    if k > 0 { lemma_rec_start_bounds(p, rec_end(p, s), n - 1, k - 1); }
+}
+impl<'t> ResponseIterator<'t> {
+    // C03: the section reported for the record under the cursor is the section being walked
+    pub proof fn lemma_section(&self)
+        requires self.wf(), self.rr_iterator.offset.is_some()
+        ensures section_at(self.pp(), self.rr_iterator.offset) == self.rr_iterator.section, !opt_lt(self.rr_iterator.offset, self.pp().offset_question)
+    {
+        let p = self.pk();
+        lemma_wf_bytes_facts(p);
+        self.lemma_wf_facts();
+        lemma_rec_start_bounds(p, self.sstart(), self.count(), self.visited() - 1);
+        lemma_sec_end_bounds(p, sec_start(p, Section::Answer), be16(p, 6) as int);
+        lemma_sec_end_bounds(p, sec_start(p, Section::NameServers), be16(p, 8) as int);
+        lemma_sec_end_bounds(p, sec_start(p, Section::Additional), be16(p, 10) as int);
+        if be16(p, 4) == 1 { lemma_name_end_bounds(p, 12); }
+    }
+}
+
+// ---- question iterator
+impl<'t> QuestionIterator<'t> {
+    pub open spec fn pp(&self) -> ParsedPacket { *self.rr_iterator.parsed_packet }
+    pub open spec fn pk(&self) -> Seq<u8> { self.rr_iterator.parsed_packet.bytes() }
+    pub open spec fn wf(&self) -> bool {
+        self.rr_iterator.parsed_packet.wf() && self.rr_iterator.section is Question && (self.rr_iterator.offset matches Some(off) ==> (
+            off == 12 && be16(self.pk(), 4) == 1 && self.rr_iterator.rrs_left == 0
+            && name_end(self.pk(), 12) == Some(self.rr_iterator.name_end as int)
+            && self.rr_iterator.offset_next == self.rr_iterator.name_end + 4 && self.rr_iterator.offset_next <= self.pk().len()))
+    }
+}
+// ---- EDNS option iterator
+impl<'t> EdnsIterator<'t> {
+    pub open spec fn pp(&self) -> ParsedPacket { *self.rr_iterator.parsed_packet }
+    pub open spec fn pk(&self) -> Seq<u8> { self.rr_iterator.parsed_packet.bytes() }
+    // [dstart, dend) is the option area of the OPT record
+    pub open spec fn dstart(&self) -> int { self.pp().offset_edns.unwrap() as int }
+    pub open spec fn dend(&self) -> int { self.dstart() + be16(self.pk(), self.dstart() - 2) }
+    pub open spec fn wf(&self) -> bool {
+        self.rr_iterator.parsed_packet.wf() && self.rr_iterator.section is Edns && (self.rr_iterator.offset matches Some(off) ==> (
+            self.pp().offset_edns.is_some() && self.dstart() <= off && off + 4 <= self.dend() && self.dend() <= self.pk().len()
+            && self.rr_iterator.name_end == off
+            && self.rr_iterator.offset_next == off + 4 + be16(self.pk(), off + 2) && self.rr_iterator.offset_next <= self.dend()
+            // the options before the cursor and after it tile the area: this is option number edns_count - rrs_left - 1
+            && opts(self.pk(), self.dstart(), off as int) == Some(self.pp().edns_count - self.rr_iterator.rrs_left - 1)
+            && opts(self.pk(), self.rr_iterator.offset_next as int, self.dend()) == Some(self.rr_iterator.rrs_left as int)))
+    }
+}
+// options: splitting the tiling at an option boundary
+pub proof fn lemma_opts_append(p: Seq<u8>, a: int, m: int, b: int)
+    requires opts(p, a, m).is_some(), m + 4 <= b, m + 4 + be16(p, m + 2) <= b, a <= m
+    ensures opts(p, a, m + 4 + be16(p, m + 2)) == Some(opts(p, a, m).unwrap() + 1)
+    decreases m - a
+{
+    if a < m { let l = be16(p, a + 2) as int; lemma_opts_append(p, a + 4 + l, m, b); }
+    else { reveal_with_fuel(opts, 2); }
+}
